@@ -924,6 +924,15 @@ impl<const N: usize> SubscriptionsInner<N> {
 
     /// Remove entries that every subscription has already reported on.
     fn purge_reported_changes(&mut self) {
+        // A subscription that is being primed or reported on has been moved out of
+        // `subscriptions` into its `ReportContext` (it is still counted in
+        // `subscriptions_count`), so its watermark cannot be consulted here. Hold
+        // the purge back until it has returned to the table: a change recorded
+        // meanwhile would otherwise be dropped before that subscription reported it.
+        if self.subscriptions_count != self.subscriptions.len() {
+            return;
+        }
+
         if let Some(min_seen_attr_change_id) = self
             .subscriptions
             .iter()
